@@ -183,8 +183,12 @@ def mutations(M, tier, rnd):
         if slow:
             ks = rnd.sample(ks, min(12, len(ks)))
         for k in ks:
-            yield ('head %d octets of this ciphertext + tail of message %d under the same session key' % (k, oi), rebuild(M, seipd[:1] + ct[:k] + octs[k:]))
-            yield ('head %d octets of message %d under the same session key + tail of this ciphertext' % (k, oi), rebuild(M, seipd[:1] + octs[:k] + ct[k:]))
+            # a splice that happens to reproduce one of the two genuine ciphertexts (equal random leading octets: 1 in 256 for k = 1) is
+            # not a modification: the other message then decrypts, correctly, to ITS plaintext
+            if ct[:k] + octs[k:] not in (ct, octs):
+                yield ('head %d octets of this ciphertext + tail of message %d under the same session key' % (k, oi), rebuild(M, seipd[:1] + ct[:k] + octs[k:]))
+            if octs[:k] + ct[k:] not in (ct, octs):
+                yield ('head %d octets of message %d under the same session key + tail of this ciphertext' % (k, oi), rebuild(M, seipd[:1] + octs[:k] + ct[k:]))
         # this message's body with the other message's MDC, and the reverse
         yield ('MDC ciphertext of message %d' % oi, rebuild(M, seipd[:-20] + octs[-20:]))
         yield ('MDC packet ciphertext (22 octets) of message %d' % oi, rebuild(M, seipd[:-22] + octs[-22:]))
